@@ -1489,6 +1489,10 @@ where
         let now = self.clock;
         let timestamp = message.timestamp();
 
+        // A zero timestamp is never valid.
+        if timestamp == Timestamp::MIN {
+            return Err(session::Error::InvalidTimestamp(timestamp));
+        }
         // Don't allow messages from too far in the future.
         if timestamp.saturating_sub(now.as_millis()) > MAX_TIME_DELTA.as_millis() as u64 {
             return Err(session::Error::InvalidTimestamp(timestamp));
